@@ -110,10 +110,21 @@ pub fn cw_profile(r: &mut Rng, max_n: usize) -> (Vec<P>, &'static str) {
 
 pub fn emit_tri(seed: u64, n: usize, max_n: usize) {
     let mut r = Rng::new(seed);
-    for i in 0..n {
-        let (base, name) = base_polygon(&mut r, max_n);
-        let (p, _s) = vary(&mut r, base);
-        let op = 300 + (i % 4) as i64;
+    let mut queue: Vec<(Vec<P>, &'static str)> = Vec::new();
+    let mut i = 0usize;
+    while i < n {
+        // small polygons are also run through every cyclic start and both windings, un-rotated (exact collinearities kept)
+        let (p, name) = if let Some(q) = queue.pop() { q } else {
+            let (base, name) = base_polygon(&mut r, max_n);
+            if base.len() <= 12 && r.below(4) == 0 {
+                let s = *r.pick(&[1e-3, 1.0, 1.0, 25.4]);
+                let sc: Vec<P> = base.iter().map(|q| (q.0 * s, q.1 * s)).collect();
+                for w in 0..2 { for k in 0..sc.len() { let mut q = sc.clone(); if w == 1 { q.reverse(); } q.rotate_left(k); queue.push((q, name)); } }
+                queue.pop().unwrap()
+            } else { let (p, _s) = vary(&mut r, base); (p, name) }
+        };
+        let op = 300 + ((i + queue.len()) % 4) as i64;
+        i += 1;
         let mut args: Vec<f64> = Vec::new();
         if op >= 302 {
             // embed in a random plane: p -> o + x*u + y*v, normal = +-(u x v) (any positive multiple)
